@@ -691,8 +691,32 @@ def check_c04(pid, tier, seed, rep):
         r, why = surf[0]
         rep.violation("corrS-%d" % r["id"], dict(correspondence="assignment forms differ from the model", first_case=dict(pkg=r["pkg"], injector=r["name"], why=why)),
                       "emitted assignment forms differ from the model on %d declarations" % len(surf), True)
-    cov.update(programs=len(N["records"]) + vetted, disagreements_checked=len(N["records"]) + vetted, evaluations=len(N["records"]) + vetted,
-               input_distribution=dict(naming_type_stream=kinds, declaration_stream_packages=vetted),
+    # type spelling: the real createASTTypeExpr vs TypeRender.render, and the type its output denotes vs the input type
+    import stage_t
+    T = stage_t.stage(seed, tier)
+    if not T["coq_ok"]:
+        rep.violation("corrT-coq", dict(log=T["log"][-2500:]), "the type-spelling correspondence cases do not evaluate in Coq", True)
+    wrong = [m for m in T["mismatches"] if m["code"] == 42]
+    differ = [m for m in T["mismatches"] if m["code"] == 41]
+    for m in wrong[:3]:
+        nviol += 1
+        rep.violation("type-%d" % nviol, dict(type=m["type"], spelled_as=m["observed"], imports=m["imports"],
+                                              how="createASTTypeExpr(example.com/p, <type>) in a package declaring Local1, Local2, Box[T], Pair[K,V]; the spelling denotes another type (coq/TypeRender.v: denote)"),
+                      "type %s is spelled as an expression that denotes a different type (or none)" % m["type"])
+    if differ and not wrong:
+        m = differ[0]
+        rep.violation("corrT-spelling", dict(correspondence="coq/TypeRender.v: render differs from createASTTypeExpr", type=m["type"], observed=m["observed"], disagreeing=len(differ),
+                                             theorem="Properties/C04.v: C04_type_spelled_as_denoted is about a model that no longer matches graph.go",
+                                             search="the observed spelling still denotes the input type on all %d cases; go vet on the type stream found nothing" % T["n"]),
+                      "type spelling differs from the model on %d types (each still denotes its type), e.g. %s" % (len(differ), m["type"]), True)
+    if T["errors"] and not wrong:
+        e = T["errors"][0]
+        rep.violation("corrT-uncovered", dict(cases=T["errors"][:5]), "type-spelling correspondence: %s (%s)" % (e["what"], e.get("type", "")[:120]), True)
+    cov["type_spelling_cases"] = T["n"]
+    cov["type_spelling_kinds"] = T["kinds"]
+    cov.update(programs=len(N["records"]) + vetted + T["n"], disagreements_checked=len(N["records"]) + vetted + T["n"], evaluations=len(N["records"]) + vetted + T["n"],
+               correspondence_disagreements=len(T["mismatches"]),
+               input_distribution=dict(naming_type_stream=kinds, declaration_stream_packages=vetted, type_spelling_root_kinds=T["kinds"]),
                samples=[dict(package=r["name"], types=r["meta"].get("types"), vet_rc=r["vet_rc"]) for r in N["records"] if r["meta"]["kind"] == "types"][:3],
                trusted_base=TRUSTED + ["go vet (go/types) decides whether a package compiles"])
     return cov
